@@ -52,6 +52,17 @@ SPEC = {
         ],
         "ret": ["%2.0", "%0.0"],
     },
+    # one node and one literal; the build_function version declares a typed formal, so no CastLike is needed and the
+    # body is exactly [lifted Constant, Mul]
+    "scale2": {
+        "params": ["X"],
+        "param_types": {"X": ["float32", [2, 3]]},
+        "attrs": {},
+        "calls": [
+            {"k": "op", "id": 0, "op": "Mul", "args": [{"v": "X"}, {"lit": 2.0}], "attrs": {}, "out": 1},
+        ],
+        "ret": ["%0.0"],
+    },
 }
 
 
@@ -82,4 +93,9 @@ def cumax(X, axis: int = 0, keep: int = 0):
     return r, m
 
 
-SCRIPT = {"leaky": leaky, "addmul": addmul, "softax": softax, "cumax": cumax}
+@script(_dom, default_opset=op)
+def scale2(X):
+    return op.Mul(X, 2.0)
+
+
+SCRIPT = {"leaky": leaky, "addmul": addmul, "softax": softax, "cumax": cumax, "scale2": scale2}
